@@ -1,13 +1,19 @@
 """C19 — parsing cost stays polynomial in nesting depth and file size (exploration with a deterministic cost oracle).
 
-Cost = number of Python function activations inside pyparsing while Module.parseString runs (counted with
-sys.monitoring; identical on every run, no wall-clock in the verdict).  Enumerated completely:
+Cost = number of Python function activations inside pyparsing and inside gtwrap.interface_parser (the parse
+actions) while Module.parseString runs (counted with sys.monitoring; identical on every run, no wall-clock in the
+verdict).  Enumerated completely:
   * every nesting chain (a namespaces deep, template arguments nested b deep) with a + b <= D, the templated type
     placed in each of 6 positions (argument, return type, property, typedef, base class, instantiation list);
-  * files of n declarations of each of 8 kinds, n = 25 .. 200 (400).
+  * pure template chains up to depth 24 (32) in argument and return position, with short and with long type names;
+  * files of n declarations of each of 8 kinds, n = 25 .. 200 (400);
+  * default-value expressions of growing length (8 .. 64 characters after an opening bracket, with and without an
+    unpaired quote such as the digit separator in 10'000).
 Oracle: along every chain the cost ratio of consecutive depths is <= 1.7 from depth 6 on (a polynomial of degree
-<= 3 gives <= 1.59 there; exponential re-parsing gives >= 2), and cost(n)/n stays within 2x of cost(25)/25.
+<= 3 gives <= 1.59 there; exponential re-parsing gives >= 2), cost(n)/n stays within 2x of cost(25)/25, doubling
+the length of a default expression at most triples the cost; every parse ends within the horizon.
 """
+import signal
 import sys
 import time
 
@@ -22,6 +28,11 @@ ASSUMPTIONS = [
 
 RATIO_MAX = 1.7
 FROM_DEPTH = 6
+HORIZON = 120     # seconds per parse; the slowest parse of the family takes about 1 s on the unchanged tree
+
+
+class Hang(Exception):
+    pass
 
 
 def count_steps(text):
@@ -31,9 +42,10 @@ def count_steps(text):
     tool = mon.PROFILER_ID
     cnt = [0]
     pp = pyparsing.__file__.rsplit('/', 1)[0]
+    own = ip.__file__.rsplit('/', 1)[0]
 
     def cb(code, off):
-        if code.co_filename.startswith(pp):
+        if code.co_filename.startswith((pp, own)):
             cnt[0] += 1
         else:
             return mon.DISABLE
@@ -52,7 +64,12 @@ def count_steps(text):
     return cnt[0], time.process_time() - t
 
 
-def nested_type(b):
+def nested_type(b, long_names=False):
+    if long_names:
+        s = 'some_project::geometry::LeafElementType'
+        for i in range(b):
+            s = ('some_project::containers::DynamicVectorOf<%s>' if i % 2 == 0 else 'some_project::containers::OrderedMapFromIntegerTo<int, %s*>') % s
+        return s
     s = 'ns::Leaf'
     for i in range(b):
         s = ('std::vector<%s>' if i % 2 == 0 else 'gt::Map<int, %s*>') % s
@@ -69,8 +86,8 @@ POSITIONS = {
 }
 
 
-def chain_text(pos, a, b):
-    body = POSITIONS[pos](nested_type(b))
+def chain_text(pos, a, b, long_names=False):
+    body = POSITIONS[pos](nested_type(b, long_names))
     return ''.join('namespace n%d { ' % i for i in range(a)) + body + ' }' * a
 
 
@@ -86,7 +103,44 @@ KINDS = {
 }
 
 
+def default_text(n, quote):
+    """A default value with n characters after an opening bracket (words, commas, nested brackets), optionally with
+    an unpaired quote (C++14 digit separator) near its start."""
+    filler = ''
+    words = ['alpha', 'beta(1)', 'g[2]', '{3}', 'x+y', 'ns::k']
+    i = 0
+    while len(filler) < n:
+        filler += (', ' if filler else '') + words[i % len(words)]
+        i += 1
+    filler = filler[:n].rstrip(', ([{')
+    # close what the cut left open
+    stack = []
+    for ch in filler:
+        if ch in '([{':
+            stack.append({'(': ')', '[': ']', '{': '}'}[ch])
+        elif ch in ')]}' and stack:
+            stack.pop()
+    filler += ''.join(reversed(stack))
+    head = "Options(10'000, " if quote else 'Options(10000, '
+    return 'void f(int a, ns::Options o = %s%s), int z = 1);' % (head, filler)
+
+
 def measure(case):
+    def on_alarm(signum, frame):
+        raise Hang()
+    old = signal.signal(signal.SIGALRM, on_alarm)
+    signal.alarm(HORIZON)
+    try:
+        return _measure(case)
+    except Hang:
+        return {'viol': [{'sig': 'C19|no-result-within-horizon|%s' % case.get('pos', case.get('kind', case['mode'])),
+                          'msg': 'parsing did not finish within %d s: %r' % (HORIZON, {k: v for k, v in case.items()})}]}
+    finally:
+        signal.alarm(0)
+        signal.signal(signal.SIGALRM, old)
+
+
+def _measure(case):
     if case.get('after_failure'):
         # history: a malformed file was parsed (and rejected) earlier in this process
         import gtwrap.interface_parser as ip
@@ -95,13 +149,15 @@ def measure(case):
         except Exception:
             pass
     if case['mode'] == 'chain':
-        text = chain_text(case['pos'], case['a'], case['b'])
+        text = chain_text(case['pos'], case['a'], case['b'], case.get('long', False))
+    elif case['mode'] == 'default':
+        text = default_text(case['n'], case['quote'])
     else:
         text = '\n'.join(KINDS[case['kind']](i) for i in range(case['n']))
     try:
         steps, cpu = count_steps(text)
     except Exception as e:
-        return {'viol': [{'sig': 'C19|rejected|%s' % case.get('pos', case.get('kind')),
+        return {'viol': [{'sig': 'C19|rejected|%s' % case.get('pos', case.get('kind', case['mode'])),
                           'msg': 'input of the scaling family is rejected: %s\n%s' % (str(e)[:200], text[:300])}]}
     return {'viol': [], 'steps': steps, 'cpu': cpu, 'len': len(text)}
 
@@ -109,8 +165,12 @@ def measure(case):
 def replay(case):
     """A replay re-measures the two neighbouring points and re-evaluates the ratio."""
     viol = []
+    if not case.get('pair'):
+        return measure(case).get('viol', [])
     if case.get('pair'):
         a, b = [measure(c) for c in case['pair']]
+        if 'steps' not in a or 'steps' not in b:
+            return a.get('viol', []) + b.get('viol', [])
         r = b['steps'] / a['steps']
         if r > case['limit']:
             viol.append({'sig': case['sig'], 'msg': 'cost ratio %.2f > %.2f (%d -> %d steps)' % (r, case['limit'], a['steps'], b['steps'])})
@@ -134,8 +194,23 @@ def run(ctx):
         for d in range(1, Dmax + 1):
             hist.append({'mode': 'chain', 'pos': pos, 'a': 0, 'b': d, 'after_failure': True})
             hist.append({'mode': 'chain', 'pos': pos, 'a': d - 1, 'b': 1, 'after_failure': True})
+    # pure template chains, deeper, with short and with long type names
+    Ddeep = 32 if ctx.thorough else 24
+    deep = []
+    for pos in ('argument', 'return'):
+        for long_names in (False, True):
+            for b in range(1, Ddeep + 1):
+                if long_names or b > Dmax:
+                    deep.append({'mode': 'chain', 'pos': pos, 'a': 0, 'b': b, 'long': long_names})
+    # default-value expressions of growing length
+    dflt = [{'mode': 'default', 'n': n, 'quote': q} for q in (False, True) for n in (8, 12, 16, 20, 24, 32, 48, 64)]
     res = ctx.map(measure, cases, chunksize=4)
     resh = ctx.map(measure, hist, chunksize=4)
+    resd = ctx.map(measure, deep + dflt, chunksize=1)
+    dsteps = {}
+    for c, r in resd:
+        if 'steps' in r:
+            dsteps[(c['mode'], c.get('pos'), c.get('long'), c.get('quote'), c.get('b', c.get('n')))] = r['steps']
     steps = {}
     cpu_total = 0.0
     for c, r in res:
@@ -176,6 +251,32 @@ def run(ctx):
                                              chain_text(pos, a2, b2)[:400]),
                                           {'pair': [{'mode': 'chain', 'pos': pos, 'a': a, 'b': b}, {'mode': 'chain', 'pos': pos, 'a': a2, 'b': b2}],
                                            'limit': RATIO_MAX, 'sig': sig})
+    for pos in ('argument', 'return'):
+        for long_names in (False, True):
+            for b in range(FROM_DEPTH, Ddeep):
+                s0 = dsteps.get(('chain', pos, long_names, None, b)) or (steps.get((pos, 0, b)) if not long_names else None)
+                s1 = dsteps.get(('chain', pos, long_names, None, b + 1)) or (steps.get((pos, 0, b + 1)) if not long_names else None)
+                if not s0 or not s1:
+                    continue
+                r = s1 / s0
+                nratios += 1
+                if r > RATIO_MAX:
+                    sig = 'C19|super-polynomial|deep-template-chain|%s|%s' % (pos, 'long-names' if long_names else 'short-names')
+                    ctx.add_violation(sig, 'parsing cost grows by a factor %.2f (> %.2f) from template depth %d to %d in position %s (%s type names): '
+                                           '%d -> %d activations' % (r, RATIO_MAX, b, b + 1, pos, 'long' if long_names else 'short', s0, s1),
+                                      {'pair': [{'mode': 'chain', 'pos': pos, 'a': 0, 'b': b, 'long': long_names},
+                                                {'mode': 'chain', 'pos': pos, 'a': 0, 'b': b + 1, 'long': long_names}], 'limit': RATIO_MAX, 'sig': sig})
+    for q in (False, True):
+        for n0, n1 in ((8, 16), (12, 24), (16, 32), (24, 48), (32, 64)):
+            s0, s1 = dsteps.get(('default', None, None, q, n0)), dsteps.get(('default', None, None, q, n1))
+            if not s0 or not s1:
+                continue
+            nratios += 1
+            if s1 > 3.0 * s0:
+                sig = 'C19|super-linear-in-default-length|%s' % ('unpaired-quote' if q else 'plain')
+                ctx.add_violation(sig, 'doubling the length of a default-value expression (%d -> %d characters inside the bracket%s) multiplies the '
+                                       'parsing cost by %.1f (%d -> %d activations)\n%s' % (n0, n1, ', after an unpaired quote' if q else '', s1 / s0, s0, s1, default_text(n1, q)),
+                                  {'pair': [{'mode': 'default', 'n': n0, 'quote': q}, {'mode': 'default', 'n': n1, 'quote': q}], 'limit': 3.0, 'sig': sig})
     for kind in KINDS:
         base = steps.get((kind, 25))
         if base is None:
@@ -193,11 +294,12 @@ def run(ctx):
                                   {'pair': [{'mode': 'size', 'kind': kind, 'n': 25}, {'mode': 'size', 'kind': kind, 'n': n}],
                                    'limit': 2.0 * n / 25, 'sig': sig})
     return {
-        'evaluations': len(cases) + len(hist),
-        'distinct_nontrivial': len(steps),
-        'rule': 'all (namespace depth a, template depth b) with a + b <= %d in 6 type positions, and files of n in %s declarations '
-                'of 8 kinds; cost = pyparsing function activations; %d consecutive-depth / size ratios evaluated'
-                % (Dmax, sizes, nratios),
+        'evaluations': len(cases) + len(hist) + len(deep) + len(dflt),
+        'distinct_nontrivial': len(steps) + len(dsteps),
+        'rule': 'all (namespace depth a, template depth b) with a + b <= %d in 6 type positions, pure template chains to depth %d '
+                '(short and long type names), files of n in %s declarations of 8 kinds, default expressions of 8..64 characters; '
+                'cost = function activations in pyparsing and gtwrap.interface_parser; %d consecutive-depth / size ratios evaluated'
+                % (Dmax, Ddeep, sizes, nratios),
         'samples': [chain_text('argument', 2, 3), {'worst_ratio': round(worst[0], 3), 'at': worst[1]}],
         'exhaustive': True,
         'worst_ratio': round(worst[0], 3),
